@@ -26,7 +26,7 @@ ASSUMPTIONS = [
     "njev is read as 'Jacobian requests since construction' (reset() does not clear it and the property only names reset for nfev)",
 ]
 BOUNDS = {"quick": dict(N=3), "thorough": dict(N=4)}
-OUTSIDE = ["events: the callback-sharing of terminal-event sub-steps is checked by C09's harness", "torch backend"]
+OUTSIDE = ["events: only the callback count / visibility under the events oracle (C20 events-* instances); nfev with events is not asserted", "torch backend"]
 
 
 def instances(tier):
@@ -42,6 +42,10 @@ def instances(tier):
     out.append(dict(id="callback-dt-sympl_euler-N2", family="sympl_euler", N=2, mode="cbdt", budget=b))
     out.append(dict(id="fault-reset-euler-N2", family="euler", N=2, mode="fault", budget=b))
     out.append(dict(id="fd-jacobian-backward_euler-N1", family="backward_euler", N=1, mode="fd", budget=b))
+    # runs with events: the real event section of integrate (terminal event: rolled-back step re-taken in sub-steps) with the events oracle
+    for evs, dense in (("T", True), ("nT", False)):
+        out.append(dict(id="events-euler-%s-%s-N2" % (evs, "dense" if dense else "nodense"), family="euler", N=2, mode="events", events=list(evs), dense=dense,
+                        max_reports=2, kind="integrate", budget=b))
     # two systems built on ONE rhs callable, used alternately: each system's counters count its own requests only
     for fam in ("euler", "backward_euler"):
         out.append(dict(id="two-systems-one-rhs-%s-N1" % fam, family=fam, N=1, mode="two_systems", budget=b))
@@ -101,6 +105,9 @@ def _two_systems(c, inst, t0, tf, dt0, kind, shape, cap):
 
 
 def scenario(c, inst):
+    if inst.get("mode") == "events":
+        from . import events_common as EC
+        return EC.scenario(c, inst, {"C20"})
     t0, tf, dt0 = c.real("t0"), c.real("tf"), c.real("dt0")
     span, adt = spans.input_assumptions(c, inst, t0, tf, dt0)
     fam = inst["family"]
